@@ -29,19 +29,19 @@ func init() {
 		Rule: "configurations = every distinct glf plan reachable from subsets of size <= 2 of the 28 documented field names x {no address filter, one address (plans that call eth_getLogs)} x ranges x {nocache URL, cached URL}, fresh client per case; " +
 			"for each configuration EVERY applicable single corruption of EVERY exchange of the call: drop/duplicate/swap(all pairs)/append batch elements, null/remove/empty a result, error member {-32000,-32602,429} x {keep,remove result}, " +
 			"renumber a header to n-1,n+1,start-1,start+limit,0, replace parentHash/hash, wrong result types, every log moved out of range / to every other in-range block (with and without blockHash) / duplicated / dropped / other transactionIndex / other logIndex, " +
-			"every receipt renumbered (out of range, every other in-range block with and without blockHash) / swapped transactionIndex / dropped / duplicated, every trace renumbered (likewise) / other transactionPosition / dropped / duplicated, " +
+			"every receipt renumbered (out of range, every other in-range block with and without blockHash) / swapped transactionIndex / dropped / duplicated, every trace renumbered (likewise) / other transactionPosition, blockHash and transactionHash of every log / receipt / trace removed, empty (0x), 31 bytes, another fork's hash, and short blockHash on the first item of a block combined with a foreign hash on each later item (the log hash operators: quick tier on the uncached URL only), / dropped / duplicated, " +
 			"body truncated at 0,1,len/2,len-1,inside a string, HTTP status {301,400,429,500,503} x {valid JSON body, text body}, transport error, object<->array, top-level null, empty batch; operators yielding a byte-identical response are enumerated once; " +
 			"the same families for Client.Latest and Client.Hash (incl. a block beyond the head); thorough: 7 more ranges and ALL PAIRS of corruptions (same or different exchanges, applied in enumeration order) for every plan on ranges (3,2),(1,3),(5,3) uncached and (3,2) cached, and for Latest and Hash(4). " +
 			"A case is non-trivial when every corruption of the case was reached and changed the response (baselines are trivial unless the range extends beyond the head).",
 		Assumptions: []string{
 			"an error object with code 0 is not an error object (not enumerated)",
 			"request/response id matching is not required; reordered batch elements are judged by the post-condition only",
-			"plans without headers/blocks: the block hash comes from the attached items and is not judged",
+			"plans without headers/blocks: the block hash comes from the attached items; it must be a full 32-byte blockHash carried by all items naming the block, else the call has to fail",
 			"a corrupted response that is itself a consistent answer (e.g. a duplicated receipt, a reordered receipts batch, a last header with another hash) must only satisfy the post-condition",
 			"logs nested in a receipt are judged as part of that receipt (their own blockNumber/transactionIndex members are not cross-checked)",
 			"the sentinel header of the eth_getLogs exchange is judged for presence only (no error object, result not null); its number/hash are not returned data",
 			"an empty receipts array / empty log list is a consistent answer (empty block); only null or missing results and short batches must fail",
-			"cases whose verdict depends on Go map iteration order inside the client (item block hash written over a validated header hash) are re-executed up to 40 times; a violation in any execution counts",
+			"cases whose verdict may depend on Go map iteration order inside the client (the logs naming one block do not all carry the same blockHash bytes, or not the header's) are executed 120 times; the findings of all executions are united",
 			"simeth serves what its Exchange log says it served",
 		},
 		Budget:        map[string]time.Duration{"quick": 80 * time.Second, "thorough": 850 * time.Second},
@@ -111,14 +111,13 @@ func tracelessInRange(start, limit uint64) bool {
 	return false
 }
 
-// evalCase executes and judges one case. Cases whose verdict depends on map iteration
-// order inside the client are re-executed (up to 100 times, until the order-dependent
-// finding shows) and the findings of all executions are united, so that verdict and
-// counts do not depend on the run.
+// evalCase executes and judges one case. Cases whose verdict may depend on map iteration
+// order inside the client are executed orderRuns times and the findings of all executions
+// are united, so that verdict and counts do not depend on the run.
 func evalCase(cs *Case) (string, []finding, *outcome, *model) {
 	out := execute(cs)
 	cls, fs, m := judge(cs, out)
-	if cs.Call != "get" || out.err != nil || out.panicked != nil || !m.orderSensitive(out.flags) {
+	if cs.Call != "get" || !m.orderSensitive(out.flags) {
 		return cls, fs, out, m
 	}
 	has := func(key string) bool {
@@ -129,21 +128,29 @@ func evalCase(cs *Case) (string, []finding, *outcome, *model) {
 		}
 		return false
 	}
-	for r := 0; r < 100 && !has(brokenLinkKey); r++ {
-		_, f2, _ := judge(cs, execute(cs))
+	classes := []string{cls}
+	for r := 1; r < orderRuns; r++ {
+		o2 := execute(cs)
+		c2, f2, _ := judge(cs, o2)
+		classes = append(classes, c2)
 		for _, f := range f2 {
 			if !has(f.key) {
 				fs = append(fs, f)
 			}
 		}
 	}
-	m.hashFromItem = 0
+	m.txHashChange = 0
 	if len(fs) > 0 {
 		sort.Slice(fs, func(i, j int) bool { return fs[i].key < fs[j].key })
-		cls = "VIOLATION:" + fs[0].key
+		return "VIOLATION:" + fs[0].key, fs, out, m
 	}
-	return cls, fs, out, m
+	sort.Strings(classes)
+	return classes[0], fs, out, m
 }
+
+// orderRuns: executions of a case whose verdict may depend on map iteration order
+// inside the client (a small Go map is iterated from one of 8 random offsets).
+const orderRuns = 120
 
 func report(c *fw.Ctx, cs *Case, cls string, fs []finding) {
 	c.Outcome(cls)
@@ -168,8 +175,8 @@ func caseString(cs *Case) string {
 // runCase evaluates one corrupted case.
 func runCase(c *fw.Ctx, cs *Case) {
 	cls, fs, out, m := evalCase(cs)
-	if m.hashFromItem > 0 && len(fs) == 0 {
-		c.Count("note/returned-hash-is-an-items-blockHash-not-the-headers", 1)
+	if m.txHashChange > 0 && len(fs) == 0 {
+		c.Count("note/tx-hash-of-the-block-response-replaced-by-an-items-transactionHash", 1)
 	}
 	nontrivial := true
 	for _, a := range out.applied {
@@ -220,7 +227,7 @@ func baseline(c *fw.Ctx, cs *Case, owner bool, expectOK bool) []Op {
 		if ex.Err != nil || json.Unmarshal(ex.Body, &tree) != nil {
 			continue
 		}
-		ops = append(ops, enumOps(k, ex, tree, oc)...)
+		ops = append(ops, enumOps(k, ex, tree, oc, cs.Cached && !c.Thorough())...)
 	}
 	return ops
 }
